@@ -1327,6 +1327,139 @@ theorem mnnKernel_stale_le_live (f : List (List α)) (nObj : Nat) (nRemove : Int
   rw [mnn_engine_independent f nObj nRemove twonn h2 hnt]
   exact C15.mnnFallback_stale_le_live f nObj nRemove twonn hbig
 
+/-! ### well-formedness of the compiled kernel's values, with or without ties -/
+
+theorem prod_nonneg_aux (dist : Nat → α) (hd : ∀ c, 0 ≤ dist c) : ∀ (row : List (Option Nat)) (acc : α × Bool),
+    0 ≤ acc.1 → 0 ≤ (row.foldl (fun (acc : α × Bool) nb => match nb with
+      | some c => (acc.1 * dist c, acc.2)
+      | none => (acc.1, false)) acc).1
+  | [], acc, h => h
+  | some c :: t, acc, h => by
+    simp only [List.foldl_cons]
+    exact prod_nonneg_aux dist hd t _ (mul_nonneg h (hd c))
+  | none :: t, acc, h => by
+    simp only [List.foldl_cons]
+    exact prod_nonneg_aux dist hd t _ h
+
+theorem mnnProd_nonneg (xs : List (List α)) (i : Nat) (row : List (Option Nat)) : 0 ≤ (mnnProd (dmAt xs i) row).1 := by
+  unfold mnnProd
+  exact prod_nonneg_aux (dmAt xs i) (dmAt_nonneg xs i) row (1, true) zero_le_one
+
+/-- `c_calc_d` keeps the array well-formed and never touches an entry that is not an item -/
+theorem calcD_wf (v : Nat → Ext α) (b : Nat → Bool) (hv : ∀ i, WF (v i)) : ∀ (items : List Nat) (d : List (Ext α)) (ok : Bool),
+    (∀ e ∈ d, WF e) →
+    ∀ e ∈ (items.foldl (fun (acc : List (Ext α) × Bool) i => (acc.1.set i (v i), acc.2 && b i)) (d, ok)).1, WF e
+  | [], d, ok, h => h
+  | a :: t, d, ok, h => by
+    simp only [List.foldl_cons]
+    apply calcD_wf v b hv t
+    intro e he
+    rcases List.mem_or_eq_of_mem_set he with h1 | h1
+    · exact h e h1
+    · rw [h1]; exact hv a
+
+/-- the two facts the loop keeps about the crowding array whatever the ties: values are non-negative or infinite, and
+the extremes stay infinite -/
+structure DInv (ex : List Nat) (d : List (Ext α)) : Prop where
+  wf : ∀ e ∈ d, WF e
+  exTop : ∀ i ∈ ex, d.getD i Ext.top = Ext.top
+
+theorem dinv_step (xs : List (List α)) (ex : List Nat) (st : MnnState α) (h : DInv ex st.d) :
+    DInv ex (mnnStepF xs ex st).d := by
+  rw [mnnStepF_eq]
+  simp only []
+  set k := (dropLast st.d st.h).getD 0
+  set h' := st.h.filter (· != k)
+  set upd := h'.foldl (removeStep k) (st.mnn, [])
+  set items := upd.2.filter (fun i => !ex.contains i) with hitems
+  set mnn' := items.foldl (fun t i => t.set i (mnnRefill (dmAt xs i) i h' (t.getD i []))) upd.1
+  refine ⟨?_, ?_⟩
+  · exact calcD_wf (fun i => Ext.fin (mnnProd (dmAt xs i) (mnn'.getD i [])).1)
+      (fun i => (mnnProd (dmAt xs i) (mnn'.getD i [])).2) (fun i => mnnProd_nonneg xs i _) items st.d st.ok h.wf
+  · intro i hi
+    obtain ⟨_, c2⟩ := calcD_get (fun i => Ext.fin (mnnProd (dmAt xs i) (mnn'.getD i [])).1)
+      (fun i => (mnnProd (dmAt xs i) (mnn'.getD i [])).2) items st.d st.ok
+    refine Eq.trans (c2 i) ?_
+    have hni : ¬ (i ∈ items ∧ i < st.d.length) := by
+      rintro ⟨hm, _⟩
+      rw [hitems, List.mem_filter, (contains_iff ex i).mpr hi] at hm
+      exact absurd hm.2 (by decide)
+    rw [if_neg hni]
+    exact h.exTop i hi
+
+theorem dinv_loop (xs : List (List α)) (ex : List Nat) : ∀ (fuel : Nat) (st : MnnState α), DInv ex st.d →
+    DInv ex (mnnLoopF xs ex fuel st).d
+  | 0, st, h => h
+  | fuel + 1, st, h => dinv_loop xs ex fuel _ (dinv_step xs ex st h)
+
+theorem dinv_init (f : List (List α)) (nObj mNb : Nat) : DInv (extremesFirst f nObj) (mnnInitF f nObj mNb).d := by
+  set n := f.length
+  set xs := normalizeCols f nObj
+  set ex := extremesFirst f nObj
+  set T : List (List (Option Nat)) := (List.range n).map fun i =>
+    ((argsortStable ((List.range n).map fun j => dmAt xs i j)).drop 1).take mNb |>.map some
+  set items := (List.range n).filter fun i => !ex.contains i with hitems
+  have hd : (mnnInitF f nObj mNb).d = (items.foldl
+      (fun (acc : List (Ext α) × Bool) i =>
+        let p := mnnProd (dmAt xs i) (T.getD i [])
+        (acc.1.set i (Ext.fin p.1), acc.2 && p.2)) (List.replicate n Ext.top, true)).1 := rfl
+  rw [hd]
+  refine ⟨?_, ?_⟩
+  · apply calcD_wf (fun i => Ext.fin (mnnProd (dmAt xs i) (T.getD i [])).1)
+      (fun i => (mnnProd (dmAt xs i) (T.getD i [])).2) (fun i => mnnProd_nonneg xs i _) items _ true
+    intro e he
+    rw [List.mem_replicate] at he
+    rw [he.2]; trivial
+  · intro i hi
+    obtain ⟨_, c2⟩ := calcD_get (fun i => Ext.fin (mnnProd (dmAt xs i) (T.getD i [])).1)
+      (fun i => (mnnProd (dmAt xs i) (T.getD i [])).2) items (List.replicate n Ext.top) true
+    refine Eq.trans (c2 i) ?_
+    have hni : ¬ (i ∈ items ∧ i < (List.replicate n (Ext.top : Ext α)).length) := by
+      rintro ⟨hm, _⟩
+      rw [hitems, List.mem_filter, (contains_iff ex i).mpr hi] at hm
+      exact absurd hm.2 (by decide)
+    rw [if_neg hni, List.getD_eq_getElem?_getD, List.getElem?_replicate]
+    split <;> rfl
+
+/-- **C13 (compiled mnn / 2nn kernel, every front — ties and duplicates included — and every `n_remove`)**: every value
+is non-negative or `+inf` (never NaN: the model's `Ext` has no such value and the product is of non-negative distances) -/
+theorem mnnKernelF_wellformed (f : List (List α)) (nObj : Nat) (nRemove : Int) (twonn : Bool) :
+    ∀ e ∈ (mnnKernelF f nObj nRemove twonn).1, WF e := by
+  unfold mnnKernelF
+  simp only []
+  generalize (if twonn then 2 else nObj) = mNb
+  by_cases hle : f.length ≤ mNb
+  · rw [if_pos hle]
+    intro e he
+    rw [List.mem_map] at he
+    obtain ⟨_, _, rfl⟩ := he
+    trivial
+  · rw [if_neg hle]
+    exact (dinv_loop _ _ _ _ (dinv_init f nObj _)).wf
+
+/-- … and the first holder of the minimum and of the maximum of every objective keeps `+inf` -/
+theorem mnnKernelF_extremes_top (f : List (List α)) (nObj : Nat) (nRemove : Int) (twonn : Bool) :
+    ∀ i ∈ extremesFirst f nObj, (mnnKernelF f nObj nRemove twonn).1.getD i Ext.top = Ext.top := by
+  unfold mnnKernelF
+  simp only []
+  generalize (if twonn then 2 else nObj) = mNb
+  by_cases hle : f.length ≤ mNb
+  · rw [if_pos hle]
+    intro i _
+    rw [List.getD_eq_getElem?_getD, List.getElem?_map]
+    cases f[i]? <;> rfl
+  · rw [if_neg hle]
+    exact (dinv_loop _ _ _ _ (dinv_init f nObj _)).exTop
+
+/-- the compiled pcd kernel, wherever it is defined (every maximum attained once, removal budget): values are
+non-negative or `+inf` and the extremes are `+inf` — through the refinement theorem -/
+theorem pcdKernelF_wellformed (f : List (List α)) (M : Nat) (c : α) (nRemove : Int) (hne : f ≠ []) (hc : 0 < c)
+    (hmax : AllMaxOnce f M) (hb : Budget f M nRemove) :
+    (∀ e ∈ (pcdKernelF f M c nRemove).1, WF e) ∧
+    ∀ i, i < f.length → i ∈ extremesFirst f M → (pcdKernelF f M c nRemove).1.getD i (Ext.fin 0) = Ext.top := by
+  rw [pcdKernelF_refines f M c nRemove hne hc hmax hb]
+  exact ⟨pcdFallback_wellformed f M c hc nRemove, fun i hi hex => pcdFallback_extremes_top f M c nRemove i hi hex⟩
+
 /-- non-vacuity: a concrete 4-point bi-objective front over ℚ has no distance ties, so on it the compiled kernel
 equals the definition for every `n_remove`, with `mnn` and with `2nn` -/
 theorem noTies_example :
